@@ -205,6 +205,7 @@ class FakeTransport:
 
     def __init__(self, repo, fs):
         self.repo, self.fs, self.n = repo, fs, 0
+        self.bad_url, self.bad_exc, self.bad_files = None, None, set()
 
     def mkstemp(self, *a, **k):
         self.n += 1
@@ -217,13 +218,18 @@ class FakeTransport:
         if url not in self.repo.objects:
             raise IOError("404 " + url)
         self.fs.files[filename] = "".join(self.repo.objects[url])
+        if url == self.bad_url:
+            self.bad_files.add(filename)
         return (filename, None)
 
     def gzip_open(self, filename, mode="rt", *a, **k):
         data = self.fs.files[filename]
+        bad = self.bad_exc if filename in self.bad_files else None
 
         class G:
             def readlines(self_):
+                if bad is not None:
+                    raise bad
                 out, cur = [], ""
                 for ch in data:
                     cur += ch
@@ -235,6 +241,8 @@ class FakeTransport:
                 return out
 
             def read(self_):
+                if bad is not None:
+                    raise bad
                 return data
 
             def __iter__(self_):
